@@ -101,15 +101,19 @@ def canon_run(run):
     return "ok " + safe_canon(plays[0][1])
 
 
-def run_case(ctx, spec, traps, c, out):
+def run_case(ctx, spec, traps, c, out, cache={}):
     from kirin import rewrite
     from kirin.analysis import const
     from bloqade.shuttle.dialects import path
     from bloqade.shuttle.passes.inject_spec import InjectSpecRule
     src = program_source(c)
     try:
-        mod = T.load_source(src, "c05")
+        # one compiled program per case, shared by the runs under different specs
+        if cache.get("src") != src:
+            cache["src"], cache["mod"] = src, T.load_source(src, "c05")
+        mod = cache["mod"]
     except Exception as e:  # noqa: BLE001
+        cache.clear()
         ctx.count("compile_fail")
         ctx.count(f"compile_fail_{type(e).__name__}")
         if ctx.counts["compile_fail"] <= 3:
@@ -176,14 +180,31 @@ def run_case(ctx, spec, traps, c, out):
     ctx.count(f"kw_{min(len(kws), 3)}")
 
 
+def second_spec():
+    """same zone names as the default spec, different geometry: a route that remembers a
+    path across specs (a cache keyed without the spec) shows up as a disagreement"""
+    from bloqade.shuttle.arch import ArchSpec, Layout
+    base = T.default_spec().layout
+    traps = base.static_traps["traps"].shift(100.0, -50.0).scale(2.0, 0.5)
+    left = traps.get_view([0, 2], [0, 1, 2])
+    return ArchSpec(layout=Layout({"traps": traps, "left": left}, {"traps"}, {"traps"}, {"traps"}))
+
+
 def run(ctx):
     spec = T.default_spec()
     traps, zones = T.spec_tables(spec)
+    spec2 = second_spec()
+    traps2, _ = T.spec_tables(spec2)
     g = T.Gen(ctx.rng, zones)
     n = 900 if ctx.tier == "thorough" else 110
     out = []
     for _ in range(n):
-        run_case(ctx, spec, traps, build_case(ctx.rng, g), out)
+        c = build_case(ctx.rng, g)
+        run_case(ctx, spec, traps, c, out)
+        if "trap" in repr(c["kernels"]):
+            # the same program, same arguments, under a second spec in the same process
+            ctx.count("second_spec_runs")
+            run_case(ctx, spec2, traps2, c, out)
     if ctx.counts.get("compile_fail", 0) > 0.3 * n:
         raise HarnessFault("generator degenerate: >30% of generated programs do not compile")
     keys = ["spec", "main", "main_nospec", "constprop", "constprop_nospec"]
